@@ -4,7 +4,7 @@ From Coq Require Import List NArith ZArith Bool Arith Lia.
 From SK Require Import lib.Tok lib.LGraph lib.Mono.
 From SK Require model.C06_Model model.C11_Model.
 From SK Require Import model.C03_Model model.C05_Model proof.C05_Proof proof.C05_Glue proof.C05_Pipe proof.C05_Prep
-  proof.C05_Order proof.C05_Main proof.C05_Set proof.C05_Result proof.C05_AllStrat proof.C05_PrepOrder.
+  proof.C05_Order proof.C05_Main proof.C05_Set proof.C05_Result proof.C05_AllStrat proof.C05_PrepOrder proof.C05_Default.
 Import ListNotations.
 
 Lemma pipeline_glued inv strat host tpl p :
@@ -33,4 +33,36 @@ Proof.
   exists p''. split; [exact Hprep''|]. split; [exact Hflag''|].
   split; [apply pipeline_glued; exact Hprep|]. split; [apply pipeline_glued; exact Hprep''|].
   intros S S''. exact (glued_set_rewriting_any strat sg pi Hs Hp host host'' p p'' Hst S S'' Hh Hrc Hpat).
+Qed.
+
+(** ** the default configuration (explicit_h=True, implicit_temp=False), templates without hydrogen atoms *)
+Lemma pipeline_default inv strat host (tpl : its) :
+  nodupb (node_ids tpl) = true -> noHb tpl = true -> nohp tpl ->
+  pipeline inv false true strat host tpl = Some (glued_of strat host (prep_default inv tpl)).
+Proof.
+  intros Hnd Hno Hhp. unfold pipeline. rewrite (prepare_default inv tpl Hnd Hno). apply results_default. exact Hhp.
+Qed.
+
+Theorem pipeline_default_set_invariant (strat : N) (sg pi : N -> N) (inv : bool)
+        (host host'' : hostg) (tpl tpl'' : its) :
+  is_strat strat -> inj sg -> inj pi ->
+  nodupb (node_ids tpl) = true -> noHb tpl = true -> nohp tpl -> simple_edgesb (gedges tpl) = true ->
+  nodupb (node_ids tpl'') = true -> noHb tpl'' = true -> nohp tpl'' -> simple_edgesb (gedges tpl'') = true ->
+  same_graph (relabel pi host) host'' -> same_graph (relabel sg tpl) tpl'' ->
+  pipeline inv false true strat host tpl = Some (glued_of strat host (prep_default inv tpl)) /\
+  pipeline inv false true strat host'' tpl'' = Some (glued_of strat host'' (prep_default inv tpl'')) /\
+  (side_ok_c (relabel pi host) (relabel_prep sg (prep_default inv tpl)) -> side_ok_c host'' (prep_default inv tpl'') ->
+   (forall T, In T (glued_of strat host (prep_default inv tpl)) ->
+      exists T'', In T'' (glued_of strat host'' (prep_default inv tpl'')) /\ obs_eq (relabel pi T) T'') /\
+   (forall T'', In T'' (glued_of strat host'' (prep_default inv tpl'')) ->
+      exists T, In T (glued_of strat host (prep_default inv tpl)) /\ obs_eq (relabel pi T) T'')).
+Proof.
+  intros Hst Hs Hp Hnd Hno Hhp Hw Hnd'' Hno'' Hhp'' Hw'' Hh Ht.
+  split; [apply pipeline_default; assumption|]. split; [apply pipeline_default; assumption|].
+  intros S S''.
+  assert (Hw_r : simple_edgesb (gedges (relabel sg tpl)) = true)
+    by (unfold relabel; simpl; rewrite (simple_relabel sg Hs); exact Hw).
+  destruct (prep_default_same inv (relabel sg tpl) tpl'' Ht Hw_r Hw'') as [Hrc Hpat].
+  rewrite (prep_default_relabel sg Hs inv tpl) in Hrc, Hpat.
+  exact (glued_set_rewriting_any strat sg pi Hs Hp host host'' (prep_default inv tpl) (prep_default inv tpl'') Hst S S'' Hh Hrc Hpat).
 Qed.
